@@ -49,6 +49,10 @@ type SrvIn struct {
 	// tcp/sni/inetaf: connections whose handler is still dialling a black-holed upstream (DialTimeout 30 s, as
 	// fabio's default) when shutdown begins. Closing the inbound connection does not unblock such a handler.
 	Dial int `json:"dial,omitempty"`
+	// tcp only (a tcp-dynamic listener): its route disappeared just before the shutdown — proxy.CloseProxy(addr) is
+	// called from another goroutine 50 ms before proxy.Shutdown, as main.go's refresher does. Its work must be
+	// endless tunnels: CloseProxy cuts them (that is not shutdown's doing), and the server is no longer registered.
+	Removed bool `json:"removed,omitempty"`
 }
 
 type ScenarioIn struct {
@@ -93,6 +97,16 @@ func (in *ScenarioIn) validate() error {
 		case "inetaf":
 		default:
 			return fmt.Errorf("unknown kind %q", s.Kind)
+		}
+		if s.Removed {
+			if s.Kind != "tcp" || s.Dial != 0 {
+				return errors.New("removed: only a plain tcp listener without pending dials")
+			}
+			for _, e := range s.Work {
+				if e != nil {
+					return errors.New("removed: only endless tunnels")
+				}
+			}
 		}
 		if s.Dial < 0 || s.Dial > 4 {
 			return errors.New("dial outside [0,4]")
@@ -478,6 +492,18 @@ func runOnce(in *ScenarioIn) (*ScenarioOut, error) {
 	}
 	if len(all) > 0 {
 		time.Sleep(30 * time.Millisecond)
+	}
+
+	// a dynamic listener whose route has just gone: CloseProxy from its own goroutine, shutdown 50 ms later
+	anyRemoved := false
+	for i, si := range in.Servers {
+		if si.Removed {
+			anyRemoved = true
+			go proxy.CloseProxy(srvs[i].addr)
+		}
+	}
+	if anyRemoved {
+		time.Sleep(50 * time.Millisecond)
 	}
 
 	wait := time.Duration(in.Wait) * time.Millisecond
